@@ -9,6 +9,7 @@ import (
 
 	"github.com/go-kid/ioc/app"
 	"github.com/go-kid/ioc/util/vsync"
+	pkgerrors "github.com/pkg/errors"
 
 	"verif/internal/envx"
 )
@@ -22,10 +23,12 @@ type RT struct {
 	Armed   []string // sites that returned an injected error in this execution
 	Reached []string // fault sites reached (in order)
 	// order control
-	User  func(key string) bool
-	Base  []string // default relative order of the permutable keys (nil: sorted)
-	Mode  int      // 0 permutable keys stay in their sorted slots, 1 first, 2 last
-	Perms int      // number of 'P' points seen
+	User func(key string) bool
+	Base []string // default relative order of the permutable keys (nil: sorted)
+	Mode int      // 0 permutable keys stay in their sorted slots, 1 first, 2 last
+	// ErrShape selects what kind of error value armed fault sites and failing participants return
+	ErrShape int
+	Perms    int // number of 'P' points seen
 }
 
 func (rt *RT) Event(e string) { rt.Log = append(rt.Log, e) }
@@ -35,6 +38,55 @@ type ErrInjected struct{ Site string }
 
 func (e ErrInjected) Error() string { return "injected fault at " + e.Site }
 
+// Shapes of injected error values: all of them are non-nil errors; they differ in what the
+// usual error-inspection conventions (Cause, Unwrap, message, format verbs) make of them.
+const (
+	ErrPlain     = iota // a plain value with a message
+	ErrStacked          // github.com/pkg/errors value carrying a stack and a cause
+	ErrCauserNil        // implements Cause() error and answers nil
+	ErrUnwrapNil        // implements Unwrap() error and answers nil
+	ErrEmptyMsg         // Error() is the empty string
+	ErrPercent          // the message contains format verbs
+	NumErrShapes
+)
+
+type errCauserNil struct{ ErrInjected }
+
+func (errCauserNil) Cause() error { return nil }
+
+type errUnwrapNil struct{ ErrInjected }
+
+func (errUnwrapNil) Unwrap() error { return nil }
+
+type errEmpty struct{ Site string }
+
+func (errEmpty) Error() string { return "" }
+
+type errPercent struct{ ErrInjected }
+
+func (e errPercent) Error() string { return "injected fault 100%s %d %v %!(NOVERB) at " + e.Site }
+
+// MkErr builds the injected error of this execution's shape.
+func (rt *RT) MkErr(site string) error {
+	shape := 0
+	if rt != nil {
+		shape = rt.ErrShape
+	}
+	switch shape {
+	case ErrStacked:
+		return pkgerrors.WithStack(ErrInjected{site})
+	case ErrCauserNil:
+		return errCauserNil{ErrInjected{site}}
+	case ErrUnwrapNil:
+		return errUnwrapNil{ErrInjected{site}}
+	case ErrEmptyMsg:
+		return errEmpty{site}
+	case ErrPercent:
+		return errPercent{ErrInjected{site}}
+	}
+	return ErrInjected{site}
+}
+
 // Fault is called by harness callbacks; it returns an error when the explorer arms this site.
 func (rt *RT) Fault(site string) error {
 	if rt == nil || !rt.Faults {
@@ -43,7 +95,7 @@ func (rt *RT) Fault(site string) error {
 	rt.Reached = append(rt.Reached, site)
 	if rt.Ch.Choose('F', 2, 1) == 1 {
 		rt.Armed = append(rt.Armed, site)
-		return ErrInjected{site}
+		return rt.MkErr(site)
 	}
 	return nil
 }
